@@ -109,3 +109,4 @@ Example C08_nonvacuous :
   /\ nth_error (obs_from facts_gen FILES init ops) 12
      = Some (OParse (Ok [("a.my_x", "int:5"); ("a.name", "str:w")])).
 Proof. vm_compute. repeat split; reflexivity. Qed.
+Print Assumptions C08_nonvacuous.
